@@ -47,13 +47,16 @@ impl<'a, 'b> GeneratorState<'a> {
                         let ifend_label = format!(".ifend{}", self.local_label_counter_if);
                         let else_label = format!(".else{}", self.local_label_counter_if);
                         self.generate_condition(condition, pos, true, &else_label, false)?;
+                        let before = self.deferred_plusplus.len();
                         let left = self.generate_expr(lhs, pos, false, false)?;
                         let la = self.generate_assign(&ExprType::A(false), &left, pos, false)?;
+                        self.purge_alternative_plusplus(before)?;
                         self.asm(JMP, &ExprType::Label(ifend_label.clone()), pos, false)?;
                         self.label(&else_label)?;
                         self.acc_in_use = false;
                         let right = self.generate_expr(rhs, pos, false, false)?;
                         let ra = self.generate_assign(&ExprType::A(false), &right, pos, false)?;
+                        self.purge_alternative_plusplus(before)?;
                         self.label(&ifend_label)?;
                         self.asm(STA, &ExprType::Tmp(false), pos, false)?;
                         self.tmp_in_use = true;
@@ -78,15 +81,18 @@ impl<'a, 'b> GeneratorState<'a> {
                                 return Ok(self.generate_expr(lhs, pos, false, false)?);
                             }
                         } else {
+                            let before = self.deferred_plusplus.len();
                             let left = self.generate_expr(lhs, pos, false, false)?;
                             let la =
                                 self.generate_assign(&ExprType::A(false), &left, pos, false)?;
+                            self.purge_alternative_plusplus(before)?;
                             self.asm(JMP, &ExprType::Label(ifend_label.clone()), pos, false)?;
                             self.label(&else_label)?;
                             self.acc_in_use = false;
                             let right = self.generate_expr(rhs, pos, false, false)?;
                             let ra =
                                 self.generate_assign(&ExprType::A(false), &right, pos, false)?;
+                            self.purge_alternative_plusplus(before)?;
                             self.label(&ifend_label)?;
                             self.acc_in_use = true;
                             if la != ra {
@@ -108,6 +114,19 @@ impl<'a, 'b> GeneratorState<'a> {
                 .compiler_state
                 .syntax_error("Missing alternatives in ?: expression", pos)),
         }
+    }
+
+    // The ++/-- left pending by one alternative of ?: belong to that alternative only: they
+    // take effect once its value is in the accumulator
+    fn purge_alternative_plusplus(&mut self, before: usize) -> Result<(), Error> {
+        let pending = self.deferred_plusplus.split_off(before);
+        if !pending.is_empty() {
+            self.acc_in_use = true;
+            for d in &pending {
+                self.generate_plusplus(&d.0, d.1, d.2)?;
+            }
+        }
+        Ok(())
     }
 
     pub(crate) fn generate_expr_cond(
